@@ -11,7 +11,7 @@ PROP = dict(
     theorems=[T + n for n in ['note_marks_forward', 'note_marks_bounded', 'note_marks_only_marks', 'stale_read_dropped', 'stale_recv_dropped', 'note_valid_iff', 'invalid_note_no_effect', 'refused_note_no_effect', 'note_pass_iff', 'fanoutInfo_eq', 'info_recipient_iff', 'pub_marks_jump', 'read_note_leaves_stored_recv_behind']],
     streams=[world.world_stream("C09")],
     seeds=dict(quick=1, thorough=4),
-    rule="random histories of 30-120 requests per case (200 cases quick, 500 thorough per seed) over 4 users, 7 sessions (two per user, "
+    rule="random histories of 30-120 requests per case (400 cases quick, 600 thorough per seed, every fourth a clause scenario with random parameters) over 4 users, 7 sessions (two per user, "
          "one background, one anonymous, one root acting for others) and up to 3 group topics, a third of the cases with one injected "
          "store failure per request, a third with crash points and restarts; non-trivial = every request line",
     assumptions=world.WORLD_ASSUMPTIONS,
